@@ -87,6 +87,10 @@ func cmdCheck(args []string) int {
 	if *only != "" {
 		evDir = filepath.Join(verifDir, "evidence", "dev")
 	}
+	if v := os.Getenv("VERIF_EVIDENCE_DIR"); v != "" {
+		// runs against a deliberately modified tree (seeded changes) keep their evidence apart
+		evDir = v
+	}
 	evPath := filepath.Join(evDir, id+".json")
 	os.MkdirAll(filepath.Join(evDir, "cex"), 0o755)
 	os.Remove(evPath)
